@@ -1,4 +1,6 @@
 import OrbitModel.Proofs.ReplC11
+import OrbitModel.Proofs.GenEqSync
+import OrbitModel.Proofs.GenEqConsts
 import OrbitModel.Proofs.ReplExamples
 import OrbitModel.Proofs.AuthBatch
 import OrbitModel.Proofs.DecodeSafe
@@ -53,5 +55,13 @@ theorem pinned_tree_blocks_valid :
     let s2 := Ex.finishPinned s1 [.load 2 [3], .load 2 [4]]
     s1.log = [] ∧ quiescent s1 = true ∧ s2.log = [4] ∧ quiescent s2 = true :=
   Ex.pinned_mixed_blocks_valid
+
+/-- `Sync` in the Go text of this run puts a head on the replicator's list only after the access
+check, the local write and the hash check -/
+theorem sync_order_tied_to_go_text : Gen.syncOrder = Order.sync := gen_sync_order
+
+/-- the replicator of the Go text of this run fetches one entry per request (`batchSize`), which is
+why every buffered log of the model holds a single entry -/
+theorem batch_size_tied_to_go_text : Gen.batchSize = 1 := gen_batchSize
 
 end Orbit.C10
